@@ -422,11 +422,16 @@ impl Src {
         format!("b[{}]", self.bi - 1)
     }
     fn nodes(&mut self, nodes: &[Tmpl]) {
+        // two adjacent unquoted texts would be ONE raw-text node for rstml: quote the second
+        let mut prev_unq = false;
         for n in nodes {
+            let was_unq = prev_unq;
+            prev_unq = false;
             match n {
                 Tmpl::Text(s, unq) => {
-                    if *unq && unquotable(s) {
+                    if *unq && unquotable(s) && !was_unq {
                         self.o.push_str(&format!(" {} ", s));
+                        prev_unq = true;
                     } else {
                         self.o.push_str(&format!(" {:?} ", s));
                     }
